@@ -9,8 +9,8 @@ def sh(cmd, cwd=None, timeout=1200, env=ENV):
     p = subprocess.run(cmd, shell=True, cwd=cwd, env=env, stdout=subprocess.PIPE, stderr=subprocess.STDOUT, text=True, timeout=timeout)
     return p.returncode, p.stdout
 
-def confirm(prop, which):
-    wt = "/tmp/wt-%s" % prop
+def confirm(prop, which, wtbase="/tmp/wt-"):
+    wt = "%s%s" % (wtbase, prop)
     src = "%s/SEED/%s" % (wt, which)
     rec = {"property": prop, "seed": which, "confirmed_at": time.strftime("%Y-%m-%dT%H:%M:%SZ", time.gmtime()), "ran": []}
     def step(name, cmd, cwd=wt):
@@ -76,7 +76,7 @@ def run(key, props_override, budget):
 
 a = sys.argv[1:]
 if a and a[0] == "import":
-    rec, err = confirm(a[1], a[2])
+    rec, err = confirm(a[1], a[2], a[3] if len(a) > 3 else "/tmp/wt-")
     print(a[1], a[2], "CONFIRMED" if not err else "REJECTED: " + err)
     for r in rec["ran"]: print("   ", r["step"], "exit", r["exit"], r["tail"][-1:] )
 elif a and a[0] == "run":
